@@ -350,6 +350,38 @@ func runOutputs(c *Ctx, prop string) {
 		}
 		oracle(w, out, func() interface{} { return map[string]interface{}{"history": historyString(h), "impl": im.name} }, true)
 	})
+	// (c') Directed histories of three calls: a long payload (around the sizes at which an implementation might switch
+	// strategy: 64, 128, 256 bytes pending) ending inside a marker, a call that switches side without content (or
+	// nothing), and a payload that would complete the marker, through every pair of string-taking methods.
+	var split [][]Op
+	mids := []Op{{M: "UnsafeString"}, {M: "SafeString"}, {M: "UnsafeBytes"}, {M: "Write"}, {M: "Print", A: "none"}, {M: "Printf", A: "none"}, {M: "UnsafeString", S: "\n"}}
+	for _, pad := range []int{20, 63, 64, 65, 100, 127, 128, 129, 200, 255, 256, 257, 300, 600} {
+		for _, tail := range []string{"\xe2", "\xe2\x80"} {
+			for _, cont := range []string{"\x80\xb9", "\xb9", "\xba", "\x80\xba", "\x80"} {
+				for _, m1 := range stringMethods {
+					for _, m2 := range append(append([]string{}, stringMethods...), "PrintLiteralRedactable") {
+						first, last := Op{M: m1, S: strings.Repeat("p", pad) + tail}, Op{M: m2, S: cont + "public"}
+						split = append(split, []Op{first, last})
+						for _, mid := range mids {
+							split = append(split, []Op{first, mid, last}, []Op{first, mid, last, {M: "UnsafeString", S: "secret"}})
+						}
+					}
+				}
+			}
+		}
+	}
+	c.ParallelFor(int64(len(split)), func(w *Worker, i int64) {
+		h := split[i]
+		for _, im := range c09impls {
+			out, pan := im.run(h)
+			w.Eval(1)
+			if pan != nil {
+				continue
+			}
+			oracle(w, out, func() interface{} { return map[string]interface{}{"history": historyString(h), "impl": im.name} }, true)
+		}
+		w.Count("directed_split_marker_histories", 1)
+	})
 	// (d) EscapeBytes, Join, JoinTo.
 	nj := c.pick(60000, 2000000)
 	c.ParallelFor(nj, func(w *Worker, i int64) {
